@@ -26,7 +26,7 @@ func checkC02(w *World, r *Report) {
 	p := newProto(w)
 	checkC04CommitOnSuccessAs(w, r, p, "C02.5")
 	checkNodeConstruction(w, r, "C02.6")
-	ru7 := r.Rule("C02.7", "every reader reads its own root: Has/Route/iterators of a transaction look in the transaction's root (uncommitted writes included), iterators in their snapshot root, router methods in the tree they loaded; the matchers are entered only through the root dispatcher", 10)
+	ru7 := r.Rule("C02.7", "every reader reads its own root: Has/Route/iterators of a transaction look in the transaction's root (uncommitted writes included), iterators in their snapshot root, router methods in the tree they loaded; the matchers are entered only through the root dispatcher", 5)
 	lookupRootObligations(w, ru7)
 	checkC02Errors(w, r)
 }
@@ -60,7 +60,7 @@ func sizeDelta(fn *ssa.Function, in ssa.Instruction, sizeF *types.Var) (int, boo
 }
 
 func checkC02Size(w *World, r *Report) {
-	ru := r.Rule("C02.1", "size accounting on every path: each path of tXn.insert to a nil-error return performs exactly one size++, each path to an error return none; tXn.remove exactly one size-- on success and none on failure; tXn.update none", 8)
+	ru := r.Rule("C02.1", "size accounting on every path: each path of tXn.insert to a nil-error return performs exactly one size++, each path to an error return none; tXn.remove exactly one size-- on success and none on failure; tXn.update none", 4)
 	inner := w.FoxType("tXn")
 	sizeF := w.Field(inner, "size")
 	for _, spec := range []struct {
@@ -154,7 +154,7 @@ func instrLess(a, b ssa.Instruction) bool {
 // ---- C02.2 ---------------------------------------------------------------------------------------------------
 
 func checkC02Truncate(w *World, r *Report) {
-	ru := r.Rule("C02.2", "size follows root replacement: in tXn.truncate every operation that drops a method's routes (installing a fresh root set, replacing a root by an empty node, cutting a root out of the slice) is accompanied on its path by an adjustment of the route count: to 0 for the whole set, by the number of routes under the dropped root otherwise", 3)
+	ru := r.Rule("C02.2", "size follows root replacement: in tXn.truncate every operation that drops a method's routes (installing a fresh root set, replacing a root by an empty node, cutting a root out of the slice) is accompanied on its path by an adjustment of the route count: to 0 for the whole set, by the number of routes under the dropped root otherwise", 2)
 	inner := w.FoxType("tXn")
 	sizeF, rootF := w.Field(inner, "size"), w.Field(inner, "root")
 	fn := w.Method("tXn", "truncate")
@@ -215,7 +215,15 @@ func checkC02Truncate(w *World, r *Report) {
 			}
 			// a root replaced by an empty node
 			if ia, ok := x.Addr.(*ssa.IndexAddr); ok && o.isNodeSlice(ia.X.Type()) && derivesFromField(ia.X, rootF, 0) {
-				if a, isAlloc := x.Val.(*ssa.Alloc); isAlloc && a.Heap {
+				// any node that does not come out of the root set itself replaces (drops) the previous root
+				fresh := false
+				switch v := x.Val.(type) {
+				case *ssa.Alloc:
+					fresh = v.Heap
+				case *ssa.Call:
+					fresh = o.isNodePtr(v.Type())
+				}
+				if fresh {
 					ndrop++
 					ok2, why := paired(x, false)
 					ru.Check("root replaced by an empty node", w.Pos(x.Pos()), "the count is reduced by the routes under the dropped root", ok2, why)
@@ -231,8 +239,8 @@ func checkC02Truncate(w *World, r *Report) {
 			}
 		}
 	})
-	if ndrop < 3 {
-		ru.Fail("drops in tXn.truncate", w.Pos(fn.Pos()), "the three ways of dropping routes are recognised", fmt.Sprintf("%d found", ndrop))
+	if ndrop < 2 {
+		r.Unrecognised("C02.2: only %d route-dropping operations recognised in tXn.truncate", ndrop)
 	}
 }
 
@@ -281,7 +289,7 @@ func derivesFromField(v ssa.Value, f *types.Var, depth int) bool {
 // ---- C02.4 ---------------------------------------------------------------------------------------------------
 
 func checkC02ExactLookup(w *World, r *Report) {
-	ru := r.Rule("C02.4", "one acceptance test for exact lookups: Router.Route, Txn.Route and Iter.Routes hand out a route only under n != nil, !tsr and n.route.pattern == pattern, after looking up SplitHostPath(pattern) in their own root; Router.Has and Txn.Has delegate to Route", 5)
+	ru := r.Rule("C02.4", "one acceptance test for exact lookups: Router.Route, Txn.Route and Iter.Routes hand out a route only under n != nil, !tsr and n.route.pattern == pattern, after looking up SplitHostPath(pattern) in their own root; Router.Has and Txn.Has delegate to Route", 3)
 	checkAccept := func(fn *ssa.Function, what string) {
 		n := 0
 		for _, g := range withAnon(fn) {
@@ -371,7 +379,7 @@ func isPatternArg(fn *ssa.Function, v ssa.Value) bool {
 
 // checkC02Errors: which sentinels can flow out of the mutators of the inner transaction.
 func checkC02Errors(w *World, r *Report) {
-	ru := r.Rule("C02.3", "error contract of the tree mutators: every error value returned by tXn.insert is built from ErrRouteExist or ErrRouteConflict, by tXn.update from ErrRouteNotFound; every fmt.Errorf used there wraps its sentinel with %w; Txn.Delete turns a failed remove into ErrRouteNotFound", 4)
+	ru := r.Rule("C02.3", "error contract of the tree mutators: every error value returned by tXn.insert is built from ErrRouteExist or ErrRouteConflict, by tXn.update from ErrRouteNotFound; every fmt.Errorf used there wraps its sentinel with %w; Txn.Delete turns a failed remove into ErrRouteNotFound", 2)
 	want := map[string][]string{"insert": {"ErrRouteExist", "ErrRouteConflict"}, "update": {"ErrRouteNotFound"}}
 	conflict := w.Func("newConflictErr")
 	for _, name := range []string{"insert", "update"} {
